@@ -674,4 +674,300 @@ theorem read_render (c : Cfg) (hu : c.unit.all isWs = true) (hf : FmtOK c) (v : 
   simp [skipWs_all_ws w hw]
 
 
+
+/-! ## `-a`: ASCII output -/
+
+
+/-- all bytes are ASCII -/
+def asciiB (s : Bytes) : Bool := s.all (fun b => decide (b.toNat < 0x80))
+
+theorem asciiB_append (s t : Bytes) : asciiB (s ++ t) = (asciiB s && asciiB t) := by simp [asciiB, List.all_append]
+theorem asciiB_cons (b : UInt8) (s : Bytes) : asciiB (b :: s) = (decide (b.toNat < 0x80) && asciiB s) := by simp [asciiB]
+
+theorem hexDig_ascii (k : Nat) (h : k < 16) : (hexDig k).toNat < 0x80 := by
+  unfold hexDig
+  split
+  · rw [toNat_ofNat_lt _ (by omega)]; omega
+  · rw [toNat_ofNat_lt _ (by omega)]; omega
+
+theorem u4_ascii (n : Nat) : asciiB (u4 n) = true := by
+  have a := hexDig_ascii (n / 4096 % 16) (by omega)
+  have b := hexDig_ascii (n / 256 % 16) (by omega)
+  have c := hexDig_ascii (n / 16 % 16) (by omega)
+  have d := hexDig_ascii (n % 16) (by omega)
+  simp only [u4, asciiB, List.all_cons, List.all_nil, Bool.and_true, Bool.and_eq_true, decide_eq_true_eq]
+  exact ⟨by decide, by decide, a, b, c, d⟩
+
+theorem escChar_ascii (c : Char) : asciiB (escChar true c) = true := by
+  unfold escChar
+  dsimp only
+  split; · decide
+  split; · decide
+  split; · decide
+  split; · decide
+  split; · decide
+  split; · decide
+  split; · decide
+  split; · exact u4_ascii _
+  split
+  · split
+    · exact u4_ascii _
+    · rw [asciiB_append, u4_ascii, u4_ascii]; rfl
+  · next h =>
+    have hlt : c.toNat < 0x80 := by simp at h; omega
+    simp only [utf8Enc, hlt, ↓reduceIte, asciiB, List.all_cons, List.all_nil, Bool.and_true, decide_eq_true_eq]
+    rw [toNat_ofNat_lt _ (by omega)]; exact hlt
+
+theorem escBody_ascii (cs : List Char) : asciiB (escBody true cs) = true := by
+  induction cs with
+  | nil => rfl
+  | cons c cs ih => simp [escBody, asciiB_append, escChar_ascii, ih]
+
+theorem strBytes_ascii (c : Cfg) (ha : c.ascii = true) (k : Str) : asciiB (strBytes c k) = true := by
+  simp [strBytes, ha, asciiB_cons, asciiB_append, escBody_ascii]
+  decide
+
+theorem indentOf_ascii (u : Bytes) (hu : asciiB u = true) (n : Nat) : asciiB (indentOf u n) = true := by
+  induction n with
+  | zero => rfl
+  | succ n ih => simp [indentOf, asciiB_append, hu, ih]
+
+theorem gap_ascii (c : Cfg) (hu : asciiB c.unit = true) (l : Nat) : asciiB (gap c l) = true := by
+  unfold gap; split
+  · rfl
+  · rw [asciiB_cons, indentOf_ascii _ hu]; decide
+
+theorem colon_ascii (c : Cfg) : asciiB (colon c) = true := by unfold colon; split <;> decide
+
+mutual
+  theorem render_ascii (c : Cfg) (ha : c.ascii = true) (hu : asciiB c.unit = true) (hf : ∀ l, asciiB (c.fmt l) = true) :
+      ∀ (v : V) (lvl : Nat), asciiB (render c lvl v) = true
+    | .null, _ => by simp [render]; decide
+    | .bool b, _ => by cases b <;> simp [render] <;> decide
+    | .num l, _ => by simpa [render] using hf l
+    | .str s, _ => by simpa [render] using strBytes_ascii c ha s
+    | .arr [], _ => by simp [render]; decide
+    | .obj [], _ => by simp [render]; decide
+    | .arr (x :: xs), lvl => by
+      simp only [render, asciiB_cons, asciiB_append, gap_ascii c hu, render_ascii c ha hu hf x (lvl + 1),
+        renderRest_ascii c ha hu hf xs (lvl + 1)]
+      decide
+    | .obj ((k, x) :: fs), lvl => by
+      simp only [render, asciiB_cons, asciiB_append, gap_ascii c hu, render_ascii c ha hu hf x (lvl + 1),
+        renderFields_ascii c ha hu hf fs (lvl + 1), strBytes_ascii c ha k, colon_ascii c]
+      decide
+  theorem renderRest_ascii (c : Cfg) (ha : c.ascii = true) (hu : asciiB c.unit = true) (hf : ∀ l, asciiB (c.fmt l) = true) :
+      ∀ (xs : List V) (lvl : Nat), asciiB (renderRest c lvl xs) = true
+    | [], _ => rfl
+    | x :: xs, lvl => by
+      simp only [renderRest, asciiB_cons, asciiB_append, gap_ascii c hu, render_ascii c ha hu hf x lvl,
+        renderRest_ascii c ha hu hf xs lvl]
+      decide
+  theorem renderFields_ascii (c : Cfg) (ha : c.ascii = true) (hu : asciiB c.unit = true) (hf : ∀ l, asciiB (c.fmt l) = true) :
+      ∀ (fs : List (Str × V)) (lvl : Nat), asciiB (renderFields c lvl fs) = true
+    | [], _ => rfl
+    | (k, x) :: fs, lvl => by
+      simp only [renderFields, asciiB_cons, asciiB_append, gap_ascii c hu, render_ascii c ha hu hf x lvl,
+        renderFields_ascii c ha hu hf fs lvl, strBytes_ascii c ha k, colon_ascii c]
+      decide
+end
+
+theorem ws_ascii (s : Bytes) (h : s.all isWs = true) : asciiB s = true := by
+  induction s with
+  | nil => rfl
+  | cons b s ih =>
+    simp only [List.all_cons, Bool.and_eq_true] at h
+    rw [asciiB_cons, ih h.2]
+    have : ∀ b : UInt8, isWs b = true → decide (b.toNat < 0x80) = true := by
+      apply u8_forall; decide +kernel
+    rw [this b h.1]; rfl
+
+
+/-! ## duplicate-key collapse -/
+
+
+/-! ### duplicate-key collapse: specification functions -/
+
+abbrev Key := List Char
+
+def keysOf (fs : List (Str × V)) : List Key := fs.map (·.1.cs)
+
+/-- distinct keys in order of first occurrence -/
+def firstOcc : List Key → List Key
+  | [] => []
+  | k :: ks => k :: (firstOcc ks).filter (fun k' => decide (k' ≠ k))
+
+/-- the last field carrying key `k` -/
+def lastField (k : Key) : List (Str × V) → Option (Str × V)
+  | [] => none
+  | f :: fs => match lastField k fs with
+    | some g => some g
+    | none => if f.1.cs = k then some f else none
+
+/-- the first field carrying key `k` -/
+def findField (k : Key) : List (Str × V) → Option (Str × V)
+  | [] => none
+  | f :: fs => if f.1.cs = k then some f else findField k fs
+
+theorem hasKey_iff (k : Key) (out : List (Str × V)) : hasKey k out = true ↔ k ∈ keysOf out := by
+  induction out with
+  | nil => simp [hasKey, keysOf]
+  | cons f out ih =>
+    obtain ⟨k', x'⟩ := f
+    simp only [hasKey, Bool.or_eq_true, decide_eq_true_eq, ih, keysOf, List.map_cons, List.mem_cons]
+    constructor
+    · rintro (h | h)
+      · exact Or.inl h.symm
+      · exact Or.inr h
+    · rintro (h | h)
+      · exact Or.inl h.symm
+      · exact Or.inr h
+
+theorem keysOf_replaceSlot (k : Str) (x : V) (out : List (Str × V)) : keysOf (replaceSlot k x out) = keysOf out := by
+  induction out with
+  | nil => rfl
+  | cons f out ih =>
+    obtain ⟨k', x'⟩ := f
+    simp only [replaceSlot]
+    split
+    · next h => simp [keysOf, h]
+    · simp only [keysOf, List.map_cons] at ih ⊢; rw [ih]
+
+theorem keysOf_append (a b : List (Str × V)) : keysOf (a ++ b) = keysOf a ++ keysOf b := by simp [keysOf]
+
+theorem findField_replaceSlot (k : Str) (x : V) (out : List (Str × V)) (q : Key) :
+    findField q (replaceSlot k x out) =
+      if q = k.cs then (if hasKey k.cs out then some (k, x) else none) else findField q out := by
+  induction out with
+  | nil => simp [replaceSlot, findField, hasKey]
+  | cons f out ih =>
+    obtain ⟨k', x'⟩ := f
+    simp only [replaceSlot, hasKey]
+    by_cases h : k'.cs = k.cs
+    · simp only [h, ↓reduceIte, findField, decide_true, Bool.true_or]
+      by_cases hq : q = k.cs
+      · simp [hq]
+      · have : ¬ k.cs = q := fun e => hq e.symm
+        simp [hq, this]
+    · simp only [h, ↓reduceIte, findField, decide_false, Bool.false_or, ih]
+      by_cases hq : q = k.cs
+      · have : ¬ k'.cs = q := by rw [hq]; exact h
+        simp [hq, h]
+      · simp [hq]
+
+theorem findField_append_single (out : List (Str × V)) (f : Str × V) (q : Key) :
+    findField q (out ++ [f]) = match findField q out with
+      | some g => some g
+      | none => if f.1.cs = q then some f else none := by
+  induction out with
+  | nil => simp [findField]
+  | cons g out ih =>
+    simp only [List.cons_append, findField]
+    split
+    · rfl
+    · exact ih
+
+theorem findField_none_iff (q : Key) (out : List (Str × V)) : findField q out = none ↔ q ∉ keysOf out := by
+  induction out with
+  | nil => simp [findField, keysOf]
+  | cons g out ih =>
+    simp only [findField, keysOf, List.map_cons, List.mem_cons, not_or]
+    split
+    · next h => simp [h]
+    · next h =>
+      rw [ih]
+      constructor
+      · intro h2; exact ⟨fun e => h e.symm, h2⟩
+      · intro h2; exact h2.2
+
+/-- lookup in the collapsed list: the last occurrence in the input wins, else what was there -/
+theorem findField_collapseInto (fs out : List (Str × V)) (q : Key) :
+    findField q (collapseInto out fs) = match lastField q fs with
+      | some g => some g
+      | none => findField q out := by
+  induction fs generalizing out with
+  | nil => simp [collapseInto, lastField]
+  | cons f fs ih =>
+    obtain ⟨k, x⟩ := f
+    simp only [collapseInto, lastField]
+    split
+    · next hk =>
+      rw [ih]
+      cases hl : lastField q fs with
+      | some g => rfl
+      | none =>
+        simp only [findField_replaceSlot, hk, ↓reduceIte]
+        by_cases hq : q = k.cs
+        · simp [hq]
+        · have : ¬ k.cs = q := fun e => hq e.symm
+          simp [hq, this]
+    · next hk =>
+      rw [ih]
+      cases hl : lastField q fs with
+      | some g => rfl
+      | none =>
+        simp only [findField_append_single]
+        by_cases hq : k.cs = q
+        · have hnone : findField q out = none := by
+            rw [findField_none_iff, ← hq, ← hasKey_iff]; simpa using hk
+          simp [hq, hnone]
+        · simp only [hq, ↓reduceIte]
+          cases findField q out <;> rfl
+
+
+
+theorem nodup_collapseInto (fs out : List (Str × V)) (h : (keysOf out).Nodup) :
+    (keysOf (collapseInto out fs)).Nodup := by
+  induction fs generalizing out with
+  | nil => simpa [collapseInto] using h
+  | cons f fs ih =>
+    obtain ⟨k, x⟩ := f
+    simp only [collapseInto]
+    split
+    · exact ih _ (by rw [keysOf_replaceSlot]; exact h)
+    · next hk =>
+      apply ih
+      rw [keysOf_append, List.nodup_append]
+      refine ⟨h, by simp [keysOf], ?_⟩
+      intro a ha b hb
+      simp only [keysOf, List.map_cons, List.map_nil, List.mem_singleton] at hb
+      subst hb
+      intro e
+      subst e
+      exact hk ((hasKey_iff _ _).2 ha)
+
+theorem keysOf_cons (k : Str) (x : V) (fs : List (Str × V)) : keysOf ((k, x) :: fs) = k.cs :: keysOf fs := rfl
+theorem keysOf_single (k : Str) (x : V) : keysOf [(k, x)] = [k.cs] := rfl
+
+theorem keys_collapseInto (fs out : List (Str × V)) :
+    keysOf (collapseInto out fs)
+      = keysOf out ++ (firstOcc (keysOf fs)).filter (fun q => decide (q ∉ keysOf out)) := by
+  induction fs generalizing out with
+  | nil => simp [collapseInto, keysOf, firstOcc]
+  | cons f fs ih =>
+    obtain ⟨k, x⟩ := f
+    simp only [collapseInto]
+    split
+    · next hk =>
+      have hmem : k.cs ∈ keysOf out := (hasKey_iff _ _).1 hk
+      rw [ih, keysOf_replaceSlot, keysOf_cons, firstOcc]
+      congr 1
+      rw [List.filter_cons_of_neg (by simp [hmem]), List.filter_filter]
+      apply List.filter_congr
+      intro q _
+      by_cases hq : q = k.cs
+      · subst hq; simp [hmem]
+      · simp [hq]
+    · next hk =>
+      have hmem : k.cs ∉ keysOf out := fun h => hk ((hasKey_iff _ _).2 h)
+      rw [ih, keysOf_append, keysOf_single, keysOf_cons, firstOcc, List.append_assoc, List.singleton_append]
+      rw [List.filter_cons_of_pos (by simp [hmem]), List.filter_filter]
+      congr 2
+      apply List.filter_congr
+      intro q _
+      by_cases hq : q = k.cs
+      · subst hq; simp
+      · simp [hq]
+
+
 end SV.JqOut
